@@ -1,5 +1,6 @@
 #!/usr/bin/env python3
 """Source of the mutant corpus (mutants.json). One-edit variants of /repo's sources: (id, rule, file, old, new, expect[, nth])."""
+import os
 import json
 M = []
 def m(id, rule, file, old, new, expect, nth=0, note=""):
@@ -307,7 +308,7 @@ def _formula_mutants():
     src = open(os.path.join(os.path.dirname(os.path.abspath(__file__)), "gen_formula_table.py")).read()
     picks = eval(re.search(r"^PICKS = (\[.*?^\])", src, re.S | re.M).group(1))
     rows = {}
-    for line in subprocess.check_output(["/verif/bin/zrntlint", "formulas"]).decode().splitlines():
+    for line in subprocess.check_output([os.environ.get("ZL_BIN", "/verif/bin/zrntlint"), "formulas"]).decode().splitlines():
         p = line.split("\t")
         if len(p) >= 6:
             rows.setdefault((p[0], p[1]), []).append(p[5])
@@ -445,6 +446,19 @@ m("ns-signed-diff", "numeric.signed", B+"common/time.go", "\tif t < genesisTime 
 m("bv-primitive", "bls.verify", B+"phase0/proposer_slashing.go", "\tif !blsu.Verify(blsPub, sigRoot2[:], sig2) {", "\tif !blsu.FastAggregateVerify([]*blsu.Pubkey{blsPub}, sigRoot2[:], sig2) {", "phase0.ValidateProposerSlashing.primitive")
 m("cd-skip-cache", "cache.deposit", B+"phase0/deposit.go", "\t\tif pc, err := epc.ValidatorPubkeyCache.AddValidator(valIndex, pubkey); err != nil {", "\t\tif _, known := epc.ValidatorPubkeyCache.Pubkey(valIndex); known {\n\t\t\treturn nil\n\t\t}\n\t\tif pc, err := epc.ValidatorPubkeyCache.AddValidator(valIndex, pubkey); err != nil {", "ProcessDeposit.cache-always")
 m("gs-memo", "global.state", B+"common/shuffle.go", "func PermuteIndex(rounds uint8, index ValidatorIndex, listSize uint64, seed Root) ValidatorIndex {\n", "var lastPermuteSeed Root\n\nfunc PermuteIndex(rounds uint8, index ValidatorIndex, listSize uint64, seed Root) ValidatorIndex {\n\tlastPermuteSeed = seed\n", "common.var lastPermuteSeed")
+
+# ---- round 8 rules
+m("ea-setter-skip", "effect.always", B+"common/general.go", "func (v *CheckpointView) Set(ch *Checkpoint) error {\n\treturn v.SetBacking(ch.View().Backing())", "func (v *CheckpointView) Set(ch *Checkpoint) error {\n\tif cur, err := v.Epoch(); err == nil && cur == ch.Epoch {\n\t\treturn nil\n\t}\n\treturn v.SetBacking(ch.View().Backing())", "common.CheckpointView.Set")
+m("ea-poll-skip", "effect.always", B+"altair/sync_aggregate.go", "func ProcessSyncCommitteeUpdates(ctx context.Context, spec *common.Spec, epc *common.EpochsContext, state common.SyncCommitteeBeaconState) error {\n\tif err := ctx.Err(); err != nil {\n\t\treturn err\n\t}\n\tnextEpoch := epc.NextEpoch.Epoch\n", "func ProcessSyncCommitteeUpdates(ctx context.Context, spec *common.Spec, epc *common.EpochsContext, state common.SyncCommitteeBeaconState) error {\n\tnextEpoch := epc.NextEpoch.Epoch\n\tif nextEpoch%spec.EPOCHS_PER_SYNC_COMMITTEE_PERIOD != 0 {\n\t\treturn nil\n\t}\n\tif err := ctx.Err(); err != nil {\n\t\treturn err\n\t}\n", "altair.ProcessSyncCommitteeUpdates")
+m("ea-store-skip", "effect.always", B+"common/epochs_context.go", "\tepc.EffectiveBalances = make([]Gwei, len(indicesBounded), len(indicesBounded))\n\tepc.TotalActiveStake = 0\n", "\tif len(epc.EffectiveBalances) == len(indicesBounded) && epc.TotalActiveStake != 0 {\n\t\treturn nil\n\t}\n\tepc.EffectiveBalances = make([]Gwei, len(indicesBounded), len(indicesBounded))\n\tepc.TotalActiveStake = 0\n", "common.EpochsContext.loadCurrentStake")
+m("fa-first-wins", "filter.all", "eth2/pool/attestations.go", "\t\tif conf.slot != nil && d.Data.Slot != *conf.slot {\n\t\t\tcontinue\n\t\t}\n\t\tif conf.comm != nil && d.Data.Index != *conf.comm {\n\t\t\tcontinue\n\t\t}\n", "\t\tif conf.slot != nil {\n\t\t\tif d.Data.Slot != *conf.slot {\n\t\t\t\tcontinue\n\t\t\t}\n\t\t} else if conf.comm != nil && d.Data.Index != *conf.comm {\n\t\t\tcontinue\n\t\t}\n", "pool.AttestationPool.Search")
+m("fa-proto-or", "filter.all", F+"proto/proto_array.go", "\t\t\tif parentRoot != nil && node.ParentRoot != *parentRoot {\n\t\t\t\tcontinue\n\t\t\t}\n\t\t\tif slot != nil && node.Ref.Slot != *slot {\n\t\t\t\tcontinue\n\t\t\t}\n", "\t\t\tif parentRoot != nil {\n\t\t\t\tif node.ParentRoot != *parentRoot {\n\t\t\t\t\tcontinue\n\t\t\t\t}\n\t\t\t} else if node.Ref.Slot != *slot {\n\t\t\t\tcontinue\n\t\t\t}\n", "proto.ProtoArray.Search")
+m("lr-value-recv", "lock.recv", "eth2/pool/voluntary_exits.go", "func (vep *VoluntaryExitPool) All() []*phase0.SignedVoluntaryExit {", "func (vep VoluntaryExitPool) All() []*phase0.SignedVoluntaryExit {", "pool.VoluntaryExitPool.All")
+m("tu-dup-json", "tag.unique", B+"electra/state.go", "EarliestConsolidationEpoch common.Epoch `json:\"earliest_consolidation_epoch\" yaml:\"earliest_consolidation_epoch\"`", "EarliestConsolidationEpoch common.Epoch `json:\"earliest_exit_epoch\" yaml:\"earliest_consolidation_epoch\"`", "electra.BeaconState:json")
+m("lc-dropped-field", "lit.copy", B+"electra/block.go", "\t\tExecutionRequests:     b.ExecutionRequests,\n", "", "complete", nth=1)
+m("gh-shared-digest", "global.hasher", "eth2/util/hashing/hash_util.go", "var Hash HashFn = sha256.Sum256", "var Hash HashFn = Sha256Repeat()", "hashing.var Hash")
+m("fs-store-over-accum", "formula.spec", B+"altair/fork.go", "participationRegistry[vi] |= applicableFlags", "participationRegistry[vi] = applicableFlags", "altair.TranslateParticipation")
+m("fs-seed-mix", "formula.spec", B+"common/randao.go", "mixes.GetRandomMix(epoch + spec.EPOCHS_PER_HISTORICAL_VECTOR - spec.MIN_SEED_LOOKAHEAD - 1)", "mixes.GetRandomMix(epoch + spec.EPOCHS_PER_HISTORICAL_VECTOR - spec.MIN_SEED_LOOKAHEAD)", "common.GetSeed")
 
 # lazy.init / lock.atomic positive cases are today's known findings (no mutant needed: they are violations on the tree)
 
